@@ -137,7 +137,7 @@ func nodeChildMain(root string, until int64, deadline time.Duration) {
 		fmt.Fprintln(os.Stderr, err)
 		os.Exit(4)
 	}
-	rec := &recordingPV{pv: privval.LoadFilePV(c.PrivValidatorKeyFile(), c.PrivValidatorStateFile()), j: j}
+	rec := &recordingPV{pv: privval.LoadOrGenFilePV(c.PrivValidatorKeyFile(), c.PrivValidatorStateFile()), j: j} // as node.DefaultNewNode
 	nk, err := p2p.LoadOrGenNodeKey(c.NodeKeyFile())
 	if err != nil {
 		fmt.Fprintln(os.Stderr, err)
@@ -515,7 +515,7 @@ func nodeReplayMain(root string) {
 	if err != nil {
 		os.Exit(4)
 	}
-	rec := &recordingPV{pv: privval.LoadFilePV(c.PrivValidatorKeyFile(), c.PrivValidatorStateFile()), j: j}
+	rec := &recordingPV{pv: privval.LoadOrGenFilePV(c.PrivValidatorKeyFile(), c.PrivValidatorStateFile()), j: j} // as node.DefaultNewNode
 	nk, err := p2p.LoadOrGenNodeKey(c.NodeKeyFile())
 	if err != nil {
 		os.Exit(4)
